@@ -155,7 +155,24 @@ def _case(res, rng, ident):
     prof = Profile("test", min_quality=minq, min_mapq=minmq, min_coverage=mincov, threshold=thr)
     copies = _tables.random_copies(g, rng, n=rng.choice([1, 2, 2, 3]))
     depth = rng.choice([10, 20, 30])
-    counts = tables.noisy(tables.planted_counts(g, copies, depth), rng, rng.choice([0, 0.1, 0.3]))
+    # weak qualifying support (a tenth to half of one copy's depth) for catalogued variants nobody carries: the
+    # fraction threshold, which depends on the copies present at that very site, decides
+    weak = {}
+    if rng.random() < 0.4:
+        carried0 = set()
+        for c in copies:
+            carried0 |= tables.allele_variants(g, *c)
+        spare0 = sorted(Mutation(*m) for m in g.mutations if Mutation(*m) not in carried0)
+        for m in rng.sample(spare0, min(len(spare0), rng.choice([1, 2, 3]))):
+            ncov = sum(1 for c in copies if g.has_coverage(c[0], m.pos))
+            k = int(round(depth * max(1, ncov) * rng.uniform(0.08, 0.48)))
+            if k:
+                weak[(m.pos, m.op)] = k
+    counts = tables.noisy(tables.planted_counts(g, copies, depth, extra_variants=weak), rng, rng.choice([0, 0.1, 0.3]))
+    # a structure naming the whole-gene deletion explicitly (one copy fewer at every site than the structure has
+    # configurations)
+    dele = g.deletion_allele()
+    explicit_del = bool(dele) and dele in g.alleles and bool(g.alleles[dele].minors) and rng.random() < 0.15
     hq_q = [q for q in (10, 15, 25, 35, 40, 60) if q >= minq] or [60]
     hq_m = [m for m in (0, 10, 20, 30, 40, 60) if m >= minmq] or [60]
     base = collections.defaultdict(dict)
@@ -201,7 +218,7 @@ def _case(res, rng, ident):
     for c in copies:
         carried |= tables.allele_variants(g, *c)
     spare = [m for m in fm if m not in carried and not any(o.pos == m.pos for o in carried)
-             and not (indel_table and (m.pos, m.op) in indel_table)]
+             and not (indel_table and (m.pos, m.op) in indel_table) and (m.pos, m.op) not in weak]
     lq_m = [m for m in (0, 1, 5, 9, 19, 29, 39) if m < minmq]
     lq_q = [q for q in (0, 1, 6, 9, 15, 25) if q < minq]
 
@@ -225,7 +242,7 @@ def _case(res, rng, ident):
         p = rng.choice(sites)
         ops = ["_"] + [o for (pp, o) in g.mutations if pp == p]
         op = rng.choice(ops)
-        k = rng.choice([1, 2, 5, 20, 60])
+        k = rng.choice([1, 2, 5, 20, 60, 60, 700, 2500])  # up to a hundred times the qualifying depth
         extra[p].setdefault(op, [])
         extra[p][op] += [lowq_pair() for _ in range(k)]
         n_lq += k
@@ -233,7 +250,7 @@ def _case(res, rng, ident):
         lowq_only = rng.choice(spare)
         extra[lowq_only.pos].setdefault(lowq_only.op, [])
         extra[lowq_only.pos][lowq_only.op] += [lowq_pair() for _ in range(rng.choice([5, 20, 40]))]
-    cn = CNSolution(g, 0, tables.cn_list(g, copies))
+    cn = CNSolution(g, 0, tables.cn_list(g, copies) + ([g.alleles[dele].cn_config] if explicit_del else []))
 
     def cov_of(with_extra):
         d = {p: {op: list(v) for op, v in ops.items()} for p, ops in base.items()}
@@ -247,7 +264,8 @@ def _case(res, rng, ident):
                     rng.shuffle(d[p][op])
         return Coverage(g, prof, None, d, dict(indel_table) if indel_table else None, {})
 
-    desc = {"gene": gname, "thin_sites": len(thin), "indel_table": sorted(map(str, indel_table)) if indel_table else None, "genome": genome, "ident": ident, "copies": [list(c) for c in copies],
+    desc = {"gene": gname, "thin_sites": len(thin), "explicit_deletion": explicit_del,
+            "weak_support": [f"{p_}.{o_}:{k_}" for (p_, o_), k_ in sorted(weak.items())], "indel_table": sorted(map(str, indel_table)) if indel_table else None, "genome": genome, "ident": ident, "copies": [list(c) for c in copies],
             "min_quality": minq, "min_mapq": minmq, "min_coverage": mincov, "threshold": thr,
             "lowq_observations": n_lq, "lowq_only_variant": str(lowq_only) if lowq_only else None}
     ca, cb = cov_of(False), cov_of(True)
